@@ -795,12 +795,23 @@ def install_election(ex):
         if not isinstance(s, ast.For):
             return None
         it = s.iter
+        if isinstance(it, ast.Attribute) and it.attr == 'ballots' and len(s.body) == 1 and isinstance(s.body[0], ast.If) \
+                and not s.body[0].orelse:
+            # `do(f(b) for b in E.ballots if cond)` (generator evaluated for its effect): the filter is the body's guard
+            r = classify_filter(s.body[0].test, st, fr)
+            if r is not None:
+                return r
         if isinstance(it, ast.Attribute) and it.attr == 'ballots':
             return ('all', None)
         if isinstance(it, ast.GeneratorExp) and len(it.generators) == 1:
             g = it.generators[0]
             if isinstance(g.iter, ast.Attribute) and g.iter.attr == 'ballots' and len(g.ifs) == 1:
-                cond = g.ifs[0]
+                return classify_filter(g.ifs[0], st, fr)
+        return None
+
+    def classify_filter(cond, st, fr):
+        if True:
+            if True:
                 if isinstance(cond, ast.Compare) and len(cond.ops) == 1 and isinstance(cond.ops[0], ast.Eq) and \
                         isinstance(cond.left, ast.Attribute) and cond.left.attr == 'topRank' and \
                         isinstance(cond.comparators[0], ast.Attribute) and cond.comparators[0].attr == 'cid':
@@ -1043,7 +1054,11 @@ def install_election(ex):
         if sw is not None and sw[0] == 'set':
             src = sw[1]
             vs_ = R if ex.instance == 'real' else I
-            f = set_sum(src, vs_)
+            cur = ex_head.ghost.get('ledger_set')
+            if cur is not None and same_list(cur[0], src):
+                src, f = cur[0], cur[1]         # the sum function the sweep's invariants were stated with
+            else:
+                f = set_sum(src, vs_)
             b, c = z3.Int('b!es'), z3.Int('c!es')
             none_left = z3.ForAll([b], z3.Implies(isBallot(b), z3.Not(src.mem(top_of(C, ex_head, b)))))
             # the members held exactly the value of their piles when the sweep began (they were continuing candidates until then)
